@@ -9,7 +9,7 @@ from __future__ import annotations
 from dataclasses import dataclass, field
 from typing import Callable, Dict, List, Optional, Tuple
 
-from . import bd, cc, er, ev, ex, fs, lk, on, oo, rd, rt, sh, st, vw, wk
+from . import bd, cc, er, ev, ex, fs, hx, lk, on, oo, rd, rt, sh, st, vw, wk
 
 
 @dataclass
@@ -65,6 +65,20 @@ RULE_GROUPS: Dict[str, Callable] = {
     'rd.subgraph_node_set': rd.rule_subgraph_node_set,
     'st.default_visibility': st.rule_default_visibility,
     'st.contained_failures': st.rule_contained_failures,
+    'st.ready_vs_active_subgraph': st.rule_ready_vs_active_subgraph,
+    'st.kwargs_hidden_verdict': st.rule_kwargs_hidden_verdict,
+    'hx.cancelled_execution': hx.rule_cancelled_execution,
+    'hx.stored_failure_not_a_value': hx.rule_stored_failure_not_a_value,
+    'hx.reserved_parameter_names': hx.rule_reserved_parameter_names,
+    'hx.recurrent_error_exit': hx.rule_recurrent_error_exit,
+    'hx.cancelled_node_events': hx.rule_cancelled_node_events,
+    'hx.managers_isolated': hx.rule_managers_isolated,
+    'hx.foreign_cancellation_reported': hx.rule_foreign_cancellation_reported,
+    'hx.engine_errors_contained': hx.rule_engine_errors_contained,
+    'hx.failure_channel': hx.rule_failure_channel,
+    'hx.executor_exception_transfer': hx.rule_executor_exception_transfer,
+    'hx.no_attempt_after_cancel': hx.rule_no_attempt_after_cancel,
+    'hx.order_vs_dependencies': hx.rule_order_vs_dependencies,
     'oo.oneof_sequential': oo.rule_oneof_sequential,
     'oo.oneof_exhaustion': oo.rule_oneof_exhaustion,
     'oo.flag_propagation': oo.rule_flag_propagation,
@@ -135,6 +149,18 @@ RULES: Dict[str, Tuple[str, str]] = {
     'LK-1': ('lk.spawn_registered', 'every task-creating primitive registers the task, on every path, in the registry that '
                                     'run() cancels'),
     'OO-8': ('st.contained_failures', 'the error gate of a sub-dag does not count a failure already contained by a resolved inner one-of'),
+    'ON-5': ('hx.cancelled_execution', 'a node execution cancelled after its processed-mark un-marks the node or publishes an outcome'),
+    'RD-8': ('hx.stored_failure_not_a_value', 'outside a one-of dag a stored failure is never handed on as a value by a second requester'),
+    'RD-7': ('hx.reserved_parameter_names', 'no engine-owned keyword parameter can collide with a declared parameter name of a node'),
+    'RC-9': ('hx.recurrent_error_exit', 'the error exit of a re-iteration publishes an outcome for the destination or raises'),
+    'EV-5': ('hx.cancelled_node_events', 'every on_node_start is followed by an on_node_complete, also on cancellation'),
+    'EV-6': ('hx.managers_isolated', 'a raising event manager does not change what the other managers observe'),
+    'ER-7': ('hx.foreign_cancellation_reported', 'a task that ended cancelled without the engine having cancelled it is not ignored by the error scan'),
+    'OO-9': ('hx.engine_errors_contained', 'engine errors raised inside a possibly one-of scope are contained; sub-dags inherit the nested flag'),
+    'ST-3': ('hx.failure_channel', 'a failure is not recognised by the type of the stored value'),
+    'EX-6': ('hx.executor_exception_transfer', 'StopIteration cannot escape a body that runs in an executor'),
+    'LK-8': ('hx.no_attempt_after_cancel', 'the retry loop starts no new attempt once its task has been asked to cancel'),
+    'CC-8': ('hx.order_vs_dependencies', 'dependencies restricted to a sub-dag come from the sub-dag\'s own edges (consistent with its launch order)'),
     'RC-8': ('oo.recurrent_loop', 'the hand-over entry of a recurrent subgraph is removed when the subgraph has finished'),
     'RT-7': ('rt.retry_loop', 'the default value is never produced inside the protected region of the retry loop'),
     'LK-7': ('lk.spawn_registered', 'the task registry holds strong references (the event loop keeps only weak references to tasks)'),
@@ -527,3 +553,26 @@ _p(PropertySpec(
     technique='CFG path counting in the node generator, comprehension shape of the edge generator, effect scan, schema type closure',
     floors={'VW-1': 2, 'VW-2': 2, 'VW-3': 1, 'VW-4': 6, 'VW-5': 3, 'VW-6': 1},
 ))
+
+# rules added for the defects reproduced by independent bug-hunting agents (DESIGN 9.8)
+def _add(pid, *rules):
+    for r in rules:
+        if r not in [x[0] for x in PROPERTIES[pid].rules]:
+            PROPERTIES[pid].rules.append((r, None))
+
+
+_add('C02', 'ON-5', 'RC-9', 'ER-7', 'EX-6', 'CC-8')
+_add('C03', 'ON-5', 'RD-8', 'RD-7')
+_add('C04', 'ON-5')
+_add('C05', 'RD-8', 'ER-7', 'ST-3')
+_add('C09', 'CC-8')
+_add('C10', 'ON-5', 'RD-8', 'RC-9', 'OO-9', 'ST-3')
+_add('C11', 'RC-9', 'ST-3')
+_add('C13', 'LK-8')
+_add('C14', 'EV-5', 'EV-6')
+EXTRA_GROUPS = {
+    # additional rule groups that report under an existing rule id
+    'C03': ['st.ready_vs_active_subgraph', 'st.kwargs_hidden_verdict'],
+    'C11': ['st.ready_vs_active_subgraph', 'st.kwargs_hidden_verdict'],
+    'C09': ['st.kwargs_hidden_verdict'],
+}
